@@ -70,11 +70,14 @@ def run_harness(job):
 
         def explore(tag_base, max_paths, collect):
             ex = core.Explorer(timeout_ms=spec.get("branch_timeout_ms", cfg["branch_timeout_ms"]), tag_base=tag_base, max_paths=max_paths)
+            ex.seed = spec.get("seed")      # seeded path: branches follow this input; claims are still decided for every input on that path
             holder = {}
             sigs = []
             first = [True]
             witnesses = []
             probes = out.setdefault("_probes", [])
+            if spec.get("seed") and not probes:
+                probes.append(dict(spec["seed"]))     # the seed itself is also run concretely
 
             def one_path(ex_):
                 if time.time() - t_start > budget and collect:
@@ -105,7 +108,8 @@ def run_harness(job):
                 if npaths >= max_paths:
                     results.append(("truncated", None, None, "max_paths"))
                     break
-                prefix, pmodel = ex.todo.pop()
+                # 'mixed': alternate deepest-first with shallowest-first (generational) so that early decisions are flipped within the budget too
+                prefix, pmodel = ex.todo.pop(0) if (spec.get("order") == "mixed" and npaths % 2 == 1) else ex.todo.pop()
                 ex.reset_path()
                 ex.prefix, ex.prefix_model = prefix, pmodel
                 core.EX = ex
